@@ -219,6 +219,9 @@ def run(ctx):
         r.check('failure-yields-io-thread-error', len(errs) == 2 and sorted(x.value_str() for x in errs) == ['Err(std::thread::JoinHandle::join(join_handle).Ok.0.Err.0)', 'errors::IoThreadPanicSnafu::fail(errors::IoThreadPanicSnafu)'],
                 ctx.site('io_loop::IoLoop::wait_for_amqp_handshake'), built=[x.row() for x in errs])
 
+    with ctx.rule('R16.9', 'every connection option set survives the builder chain: each setter changes its own field only (shared with C19)', floor=7) as r:
+        A.include(ctx, r, 'c19', 'R19.1', pick=('setter:', 'defaults'))
+
     with ctx.rule('R16.5', 'connection timeout: empty poll after the timeout -> ConnectionTimeout', floor=2) as r:
         fnp = 'io_loop::IoLoop::run_io_loop'
         evs, _ = ctx.events(fnp)
